@@ -730,6 +730,16 @@ PathToExpr(v) == FoldLeft(LAMBDA acc, x : IF acc.op = "SELF" THEN StepExpr(x) EL
 \* the pinned suite fixes that such a container has NO tag until it is printed, so its `tag` is left open
 RECURSIVE OnlyNulls(_)
 OnlyNulls(v) == CASE v.k = "null" -> TRUE [] v.k = "seq" -> \A i \in DOMAIN v.e : OnlyNulls(v.e[i]) [] v.k = "map" -> \A i \in DOMAIN v.m : OnlyNulls(v.m[i][2]) [] OTHER -> FALSE
+Lowers == <<"a", "b", "c", "d", "e", "f", "g", "h", "i", "j", "k", "l", "m", "n", "o", "p", "q", "r", "s", "t", "u", "v", "w", "x", "y", "z">>
+Uppers == <<"A", "B", "C", "D", "E", "F", "G", "H", "I", "J", "K", "L", "M", "N", "O", "P", "Q", "R", "S", "T", "U", "V", "W", "X", "Y", "Z">>
+UpperAtom(a) == IF \E i \in 1..26 : Lowers[i] = a THEN Uppers[CHOOSE i \in 1..26 : Lowers[i] = a] ELSE a
+LowerAtom(a) == IF \E i \in 1..26 : Uppers[i] = a THEN Lowers[CHOOSE i \in 1..26 : Uppers[i] = a] ELSE a
+RECURSIVE TrimLeft(_)
+TrimLeft(t) == IF t # <<>> /\ Head(t) = " " THEN TrimLeft(Tail(t)) ELSE t
+TrimAtoms(t) == RevSeq(TrimLeft(RevSeq(TrimLeft(t))))
+\* the environment the conformance harness runs the implementation in (set by the harness, see harness/expr.go)
+EnvTable == << [name |-> "va", text |-> <<"a">>, val |-> StrV(<<"a">>)], [name |-> "vn", text |-> <<"2">>, val |-> IntV(2)],
+               [name |-> "vt", text |-> <<"t", "r", "u", "e">>, val |-> BoolV(TRUE)] >>      \* "vu" is not set
 EvExt(e, s) ==
   CASE e.op = "GET_TAG"  -> \* containers built by operators (pivot, ...) are not all tagged either: only containers of the document are decided
                             IF \E i \in DOMAIN s.ctx : LET v == ValOf(s.doc, s.ctx[i]) IN IsContainer(v) /\ (OnlyNulls(v) \/ ~s.ctx[i].in) THEN Fail(s, "unspec")
@@ -813,6 +823,31 @@ EvExt(e, s) ==
                  IN IF \E j \in DOMAIN xs : cmp(xs[best], xs[j]) = 0 /\ ~VEq(xs[best], xs[j]) THEN Fail(acc, "unspec")      \* 1 and 1.0
                     ELSE Emit(acc, <<Det(xs[best])>>))
     [] e.op = "ERROR" -> IF s.ctx = <<>> THEN Fail(s, "unspec") ELSE Fail(s, "err")
+    [] e.op = "CHANGE_CASE" ->
+         \* upcase / downcase: strings only, letter by letter
+         IF \E i \in DOMAIN s.ctx : ValOf(s.doc, s.ctx[i]).k # "str" THEN Fail(s, "err")
+         ELSE [s EXCEPT !.ctx = [i \in DOMAIN s.ctx |-> LET v == ValOf(s.doc, s.ctx[i]) IN
+                 Det(StrV([j \in DOMAIN v.s |-> IF e.upper THEN UpperAtom(v.s[j]) ELSE LowerAtom(v.s[j])]))]]
+    [] e.op = "TRIM" ->
+         \* trim: strings only; leading and trailing blanks go
+         IF \E i \in DOMAIN s.ctx : ValOf(s.doc, s.ctx[i]).k # "str" THEN Fail(s, "err")
+         ELSE [s EXCEPT !.ctx = [i \in DOMAIN s.ctx |-> Det(StrV(TrimAtoms(ValOf(s.doc, s.ctx[i]).s)))]]
+    [] e.op = "IS_KEY" ->
+         \* a node of the document reached as a value is not a key; keys yielded by `...` are detached strings here, and a
+         \* detached value does not say whether it was a key
+         IF \E i \in DOMAIN s.ctx : ~s.ctx[i].in THEN Fail(s, "unspec")
+         ELSE [s EXCEPT !.ctx = [i \in DOMAIN s.ctx |-> Det(BoolV(FALSE))]]
+    [] e.op \in {"GET_DOCUMENT_INDEX", "GET_FILE_INDEX"} ->
+         \* one document of one file is evaluated here (Stream.tla has several): position 0
+         IF \E i \in DOMAIN s.ctx : ~s.ctx[i].in THEN Fail(s, "unspec")
+         ELSE [s EXCEPT !.ctx = [i \in DOMAIN s.ctx |-> Det(IntV(0))]]
+    [] e.op = "GET_ANCHOR" -> [s EXCEPT !.ctx = [i \in DOMAIN s.ctx |-> Det(StrV(<<>>))]]    \* values of the JSON model carry no anchors
+    [] e.op = "ENV" ->
+         \* env(name): the variable's text read as a YAML scalar; strenv(name): the text itself; ONE result whatever the context
+         LET I == {i \in DOMAIN EnvTable : EnvTable[i].name = e.name} IN
+         IF e.str THEN [s EXCEPT !.ctx = <<Det(StrV(IF I = {} THEN <<>> ELSE EnvTable[CHOOSE i \in I : TRUE].text))>>]
+         ELSE IF I = {} THEN Fail(s, "err")
+         ELSE [s EXCEPT !.ctx = <<Det(EnvTable[CHOOSE i \in I : TRUE].val)>>]
     [] e.op = "SET_PATH" ->
          \* setpath(p; v): p is evaluated once, read-only, on the whole context and must give ONE path; for every context
          \* node v is evaluated read-only on it and must give ONE value, which is assigned at the path below the node
